@@ -10,6 +10,7 @@ import (
 	"strings"
 
 	"github.com/Eyevinn/mp4ff/hevc"
+	"github.com/Eyevinn/mp4ff/mp4"
 	"verifharness/hx"
 )
 
@@ -662,6 +663,75 @@ func runHConfD(data []byte) (r result) {
 	return r
 }
 
+// runInit: TrakBox.SetAVCDescriptor / SetHEVCDescriptor on an empty video track: track-header width/height (16.16),
+// sample-entry width/height, the configuration record in the sample entry and its encoding.
+func runInit(kind, arg string) (r result) {
+	p := hx.Try(func() {
+		parts := strings.Split(arg, ";")
+		init := mp4.CreateEmptyInit()
+		init.AddEmptyTrack(90000, "video", "und")
+		trak := init.Moov.Trak
+		f := &flat{}
+		if kind == "AINIT" {
+			if len(parts) != 3 || len(parts[2]) != 2 {
+				r = result{outcome: "badarg"}
+				return
+			}
+			typ := "avc3"
+			if parts[2][0] == '1' {
+				typ = "avc1"
+			}
+			if err := trak.SetAVCDescriptor(typ, unhexList(parts[0]), unhexList(parts[1]), parts[2][1] == '1'); err != nil {
+				r = result{outcome: "err", errStr: err.Error()}
+				return
+			}
+			e := trak.Mdia.Minf.Stbl.Stsd.AvcX
+			f.u("Tkhd.Width", uint64(trak.Tkhd.Width))
+			f.u("Tkhd.Height", uint64(trak.Tkhd.Height))
+			f.u("Entry.Width", uint64(e.Width))
+			f.u("Entry.Height", uint64(e.Height))
+			flatConfRec(f, "avcC", &e.AvcC.DecConfRec)
+			var buf bytes.Buffer
+			if err := e.AvcC.DecConfRec.Encode(&buf); err != nil {
+				f.u("avcC.encoded", 0)
+			} else {
+				f.u("avcC.encoded", 1)
+				flatBytes(f, "avcC.bytes", buf.Bytes())
+			}
+		} else {
+			if len(parts) != 4 || len(parts[3]) != 2 {
+				r = result{outcome: "badarg"}
+				return
+			}
+			typ := "hev1"
+			if parts[3][0] == '1' {
+				typ = "hvc1"
+			}
+			if err := trak.SetHEVCDescriptor(typ, hexList(parts[0]), hexList(parts[1]), hexList(parts[2]), nil, parts[3][1] == '1'); err != nil {
+				r = result{outcome: "err", errStr: err.Error()}
+				return
+			}
+			e := trak.Mdia.Minf.Stbl.Stsd.HvcX
+			f.u("Tkhd.Width", uint64(trak.Tkhd.Width))
+			f.u("Tkhd.Height", uint64(trak.Tkhd.Height))
+			f.u("Entry.Width", uint64(e.Width))
+			f.u("Entry.Height", uint64(e.Height))
+			flatHevcRec(f, "hvcC", &e.HvcC.DecConfRec)
+			var buf bytes.Buffer
+			if err := e.HvcC.DecConfRec.Encode(&buf); err != nil {
+				r = result{outcome: "err", errStr: "encode: " + err.Error()}
+				return
+			}
+			flatU8s(f, "hvcC.bytes", buf.Bytes())
+		}
+		r = result{outcome: "ok", f: f}
+	})
+	if p != "" {
+		r = result{outcome: "panic", errStr: p}
+	}
+	return r
+}
+
 // runHevcCase runs the implementation on one HEVC case (kind starts with "H").
 func runHevcCase(c caseLine, nalu []byte) result {
 	switch c.kind {
@@ -675,6 +745,8 @@ func runHevcCase(c caseLine, nalu []byte) result {
 		return runHConf(c.arg)
 	case "HCONFD":
 		return runHConfD(nalu)
+	case "AINIT", "HINIT":
+		return runInit(c.kind, c.arg)
 	}
 	return result{outcome: "badkind"}
 }
@@ -692,6 +764,10 @@ func hevcSiteOf(kind string) string {
 		return "hevc.CreateHEVCDecConfRec"
 	case "HCONFD":
 		return "hevc.DecodeHEVCDecConfRec"
+	case "AINIT":
+		return "mp4.TrakBox.SetAVCDescriptor"
+	case "HINIT":
+		return "mp4.TrakBox.SetHEVCDescriptor"
 	}
 	return "hevc." + kind
 }
